@@ -274,11 +274,10 @@ def startFlow (f : FUid) (evArgs : List (String × Val)) : M Unit := do
     if (lookupArg s!"${lastIdx + 1}" evArgs).isSome then
       pyRaise "ColangRuntimeError" s!"To many parameters provided in start of flow '{x.flowId}'"
 
-def handleEventMatching (event : Event) (headsMatching : List Key) : M Unit := do
-  for k in headsMatching do
+/-- the body of the try block of `_handle_event_matching` for one matched head (element and flow state are looked up
+    in front of the try block) -/
+def handleMatch (event : Event) (k : Key) (cfg : FlowCfg) (hd : Head) : M Unit := do
     let f := k.1
-    let cfg ← cfgOfInst f
-    let some hd ← getHead? k | unsupported "matching head vanished"
     match cfg.elements[hd.pos]? with
     | some (.matchOp spec _) | some (.sendOp spec) | some (.newAction spec) =>
       match spec.ref with
@@ -301,6 +300,23 @@ def handleEventMatching (event : Event) (headsMatching : List Key) : M Unit := d
             | some _ => unsupported "non-string source_flow_instance_uid"
             | none => pyRaise "KeyError" "source_flow_instance_uid"
           modInstX f fun y => { y with scopes := OMap.modify sc (fun p => (p.1 ++ [src], p.2)) y.scopes }
+
+/-- `_handle_event_matching(state, event, heads_matching)` (fixes/C10-handle-match-error-contained.diff): the work per head runs
+    inside a try block; a runtime error is reported as `ColangError` and the head is handed back to the caller, which fails
+    its flow together with the other erroring heads -/
+def handleEventMatching (event : Event) (headsMatching : List Key) : M (List Key) := do
+  let mut headsErroring : List Key := []
+  for k in headsMatching do
+    let cfg ← cfgOfInst k.1
+    let some hd ← getHead? k | unsupported "matching head vanished"
+    match ← attemptPy (handleMatch event k cfg hd) with
+    | .ok _ => pure ()
+    | .error (c, m) =>
+      -- a runtime error while handling the match fails only the flow of this head
+      pushEvent (colangErrorEvent c m)
+      modifyRest fun r => { r with caught := r.caught ++ [s!"handle: {c}: {m}"] }
+      headsErroring := headsErroring ++ [k]
+  return headsErroring
 
 /-! ### `_resolve_action_conflicts` -/
 
@@ -416,6 +432,11 @@ def resolveActionConflicts (fuel : Nat) (actionable : List Key) : M (List Key) :
 
 /-! ### the three nested loops of `run_to_completion` -/
 
+/-- `list.remove(head)` on a list of heads (first occurrence) -/
+def listRemoveKey (k : Key) : List Key → List Key
+  | [] => []
+  | y :: ys => if y = k then ys else y :: listRemoveKey k ys
+
 /-- one internal event (the body of `while state.internal_events`) -/
 def processEvent (fuel : Nat) (event : Event) (actionable : List Key) : M (List Key) := do
   -- active interaction loops
@@ -472,7 +493,10 @@ def processEvent (fuel : Nat) (event : Event) (actionable : List Key) : M (List 
   let r ← getRest
   let scoresOf := fun (kk : Key) => ((OMap.lookup kk r.hx).getD {}).scores
   headsMatching := sortDesc scoresOf headsMatching
-  handleEventMatching event headsMatching
+  -- `for head in _handle_event_matching(…): heads_matching.remove(head); heads_erroring.append(head)`
+  for k in ← handleEventMatching event headsMatching do
+    headsMatching := listRemoveKey k headsMatching
+    headsErroring := headsErroring ++ [k]
   if event.ev.kind = .action then updateActionStatusByEvent event.ev
   for k in headsFailing do
     let hx ← getHeadX k
